@@ -29,6 +29,9 @@ def data(ctx, i):
     centers = r.normal(0, 3, size=(K, D))
     lab = np.repeat(np.arange(K), per)
     X = centers[lab] + r.normal(size=(N, D)) @ A
+    # features far from the origin (|mean| / std up to 1e6): the identities may not depend on where the origin is
+    offset = float(r.choice([0.0, 0.0, 1e3, 1e5, 1e6])) * r.choice([-1.0, 1.0], size=D)
+    X = X + offset
     perm = r.permutation(N)
     X, lab = X[perm], lab[perm]
     kind = ["zero_based", "shifted", "negative", "noncontiguous", "unsorted"][i % 5]
@@ -43,7 +46,7 @@ def data(ctx, i):
     else:
         names = r.permutation(np.arange(K) * 3 + 1)
     y = names[lab]
-    return dict(N=N, D=D, K=K, X=X, y=[int(v) for v in y], kind=kind, sizes=gen.random_composition(r, N))
+    return dict(N=N, D=D, K=K, X=X, y=[int(v) for v in y], kind=kind, sizes=gen.random_composition(r, N), offset=float(np.max(np.abs(offset))))
 
 
 def as_dask(sc):
